@@ -1255,7 +1255,7 @@ func specTailIs(nb []byte, n int, p *Packet) bool {
 //@   ensures specAccepts(old(a.state), pkt) && specAFC(pkt)%2 == 1 && specFErr(a) == nil && specFDone(a) ==> err == gots.ErrAccumulatorDone && a.state == 2
 //@   ensures specAccepts(old(a.state), pkt) && specAFC(pkt)%2 == 1 && specFErr(a) == nil && !specFDone(a) ==> err == nil && a.state == 1
 //@   ensures forall j in 0..188 :: pkt[j] == old(*pkt)[j]
-//@   modifies *a, *a.buf, a.packets[0..cap(a.packets)]
+//@   modifies *a, *a.buf, a.buf[*], a.packets[0..cap(a.packets)]
 
 //@ func (a *accumulator) Bytes() []byte
 //@   props C17
@@ -1273,7 +1273,7 @@ func specTailIs(nb []byte, n int, p *Packet) bool {
 //@   props C17
 //@   requires specAccOK(a)
 //@   ensures specAccOK(a) && a.state == 0 && len(a.packets) == 0 && len(specAccBytes(a)) == 0
-//@   modifies *a, *a.buf
+//@   modifies *a, *a.buf, a.buf[*]
 
 
 // ---------------------------------------------------------------- C18: writer adapters
